@@ -30,6 +30,11 @@ CHECKS = {
          "Held on the executions observed: every built-in excluded directory name and test-marker substring as parent, ten spellings (dot, absolute, relative, .., sibling, file lists, --project-root), all 20 commands; evidence counts comparisons per parent class and spelling.",
          "Trusted: the path normaliser; each generated project root carries a .git/ marker; the reference is '.' from inside an innocuous parent.",
          "DESIGN.md section 4 C09"),
+
+ "C15": ("runtime monitoring: boundary trace of every command over trigger, polyglot (swapped-language / unsupported-type) and twin (extension case, tsx/jsx, shebang) projects and under random foreign configuration sections; rule-family, silence and relational oracles",
+         "Held on the executions observed: 20 commands x rule-id family, random valid settings of the other linters' sections (hyphen/underscore), language-specific linters on other-language and unrecognised files, extension-case/tsx/jsx/shebang twins; evidence counts each relation.",
+         "Trusted: the family table from the docs; which linters are language-specific (per-linter docs); file-placement and file-header are exempt from the unrecognised-type clause (they document non-source types).",
+         "DESIGN.md section 4 C15"),
 }
 PENDING = {}
 props = [json.loads(l) for l in open(os.path.join(HERE, "properties.jsonl"))]
